@@ -87,9 +87,10 @@ def h_ops(p0: bool, p1: bool, p2: bool, c0: int, c1: int, c2: int, pre: int) -> 
             cfg = {"type": [LINK]}
             if st is not None:
                 cfg["state"] = st
-            cache = env.local_odb("cache", **cfg) if CLS == "local" else env.base_odb("cache", **cfg)
-            other = env.base_odb("other") if CLS == "local" else env.local_odb("other")
-            sha = env.local_odb("sha", hash_name="sha256") if CLS == "local" else env.base_odb("sha", hash_name="sha256")
+            pre = "exp.dirty-2024/" if cube("dirname", False) else ""  # stores below a folder whose name contains '.dir'
+            cache = env.local_odb(pre + "cache", **cfg) if CLS == "local" else env.base_odb(pre + "cache", **cfg)
+            other = env.base_odb(pre + "other") if CLS == "local" else env.local_odb(pre + "other")
+            sha = env.local_odb(pre + "sha", hash_name="sha256") if CLS == "local" else env.base_odb(pre + "sha", hash_name="sha256")
             src = env.p("src")
             env.mkdir(src)
             files = {}
